@@ -188,9 +188,25 @@ def tiny4_fixed(count=400):
     return stratified(gf_tiny(4), count, 0)
 
 
+def min_sentence_len(g):
+    minlen = {t: 1 for t in g.terms}
+    for nt in g.nonterms:
+        minlen[nt] = 10**6
+    ch = True
+    while ch:
+        ch = False
+        for l, r in g.prods:
+            v = sum(minlen[s] for s in r)
+            if v < minlen[l]:
+                minlen[l] = v
+                ch = True
+    return minlen[g.start]
+
+
 def tiny3x3_fixed(count=600):
-    """Fixed stratified subset of GF-tiny(3) with right-hand sides up to length 3 (41 898 grammars in the family)."""
-    return stratified(gf_tiny(3, maxrhs=3), count, 0)
+    """Fixed stratified subset of GF-tiny(3) with right-hand sides up to length 3 (41 898 grammars in the family);
+    only grammars with a sentence of length <= 3, so that accepting paths exist within the input bound."""
+    return stratified([g for g in gf_tiny(3, maxrhs=3) if min_sentence_len(g) <= 3], count, 0)
 
 
 def random_grammars(count, seed, nts=("S", "A", "B"), ts=("a", "b", "c"), kmin=5, kmax=8):
